@@ -22,15 +22,28 @@ TABLES3 = ('{[n \\in {"a", "b", "c"} |-> CASE n = "a" -> va [] n = "b" -> vb [] 
            'vc \\in [val : {<<"w">>, <<"a">>}, blank : BOOLEAN]}')
 
 
-def gen(R, maxval, maxsrc, valtoks, srctoks, name, tables=None):
+# for / case: a blank-terminated value in front of a for list, an alias whose name is a reserved word
+TABLES5 = ('{[n \\in {"a", "b", "in"} |-> CASE n = "a" -> va [] n = "b" -> vb [] OTHER -> vi] : '
+           'va \\in [val : {<<"for", "w", "in">>, <<"case", "w", "in">>, <<"w">>}, blank : BOOLEAN], '
+           'vb \\in [val : {<<"w">>, <<"a">>}, blank : BOOLEAN], vi \\in [val : {<<"w">>}, blank : {FALSE}]} '
+           '\\cup {[n \\in {"a", "b"} |-> CASE n = "a" -> va [] OTHER -> vb] : '
+           'va \\in [val : {<<"for", "w", "in">>, <<"case", "w", "in">>}, blank : BOOLEAN], vb \\in [val : {<<"w">>, <<"b", "w">>}, blank : BOOLEAN]}')
+SOURCES5 = ["a b w ; do b ; done", "a w b ; do w ; done", "a b ; do a ; done", "for w in b a ; do w ; done", "case w in b ) b ;; esac", "case b in w ) a ;; esac",
+            "a b ) w ;; esac", "a w ) b ;; b ) w ;; esac", "for b in w ; do w ; done", "for w in w ; do in ; done"]
+
+
+def gen(R, maxval, maxsrc, valtoks, srctoks, name, tables=None, sources=None):
     def seq(xs):
         return "<<" + ", ".join('"' + x.replace("\\", "\\\\").replace('"', '\\"') + '"' for x in xs) + ">>"
     defs = "MCValToks == %s\nMCSrcToks == %s\n" % (seq(valtoks), seq(srctoks))
     cfg = ('INIT Init\nNEXT Next\nINVARIANTS Bounded NoSelfExpansion Emit\nCONSTANTS\n Names = {"a", "b"%s}\n ValToks <- MCValToks\n'
-           ' SrcToks <- MCSrcToks\n MaxVal = %d\n MaxSrc = %d\n Bound = 60\n' % (', "c"' if tables else "", maxval, maxsrc))
+           ' SrcToks <- MCSrcToks\n MaxVal = %d\n MaxSrc = %d\n Bound = 60\n' % ((', "c", "in"' if tables else ""), maxval, maxsrc))
     if tables:
         defs += "MCTables == %s\n" % tables
         cfg += " Tables <- MCTables\n"
+    if sources:
+        defs += "MCSources == {%s}\n" % ", ".join(seq(x.split(" ")) for x in sources)
+        cfg += " Sources <- MCSources\n"
     res = R.tlc("Alias", cfg, defs=defs, name=name, timeout=3000)
     if res.violated:
         raise vlib.MachineryError("Alias.tla: %s violated in the model (substitution does not terminate / self-expansion)" % res.violated)
@@ -62,8 +75,11 @@ def check(R, cases, name):
         ex = dict(aliases={n: " ".join(v["val"]) + (" " if v["blank"] else "") for n, v in r["vals"].items()}, source=r["srctext"],
                   expected_text=r["outtext"], with_aliases=dict(err=r["with"]["err"], panic=r["with"]["panic"]),
                   plain=dict(err=r["plain"]["err"]), same_skeleton=r["with"]["sk"] == r["plain"]["sk"])
+        # a blank-terminated value `case W in ` directly in front of the first pattern: see F-C17-pattern-after-case-in
+        cls = "third-word" if "foo" in r["vals"] else "case-in-blank" if any(v["blank"] and v["val"][:1] == ["case"] and v["val"][-1:] == ["in"] for v in r["vals"].values()) \
+            and r["with"]["sk"] != r["plain"]["sk"] and r["with"]["err"]["class"] == "none" else ""
         R.violation("alias substitution differs from textual replacement: %s" % json.dumps(ex, ensure_ascii=False)[:1400],
-                    dict(kind="alias", case=dict(vals=r["vals"], src=r["src"], out=r["out"])), coords=dict(src=r["srctext"]))
+                    dict(kind="alias", case=dict(vals=r["vals"], src=r["src"], out=r["out"])), coords={"src": r["srctext"], "class": cls})
     return recs
 
 
@@ -80,11 +96,17 @@ def run(R):
         cases += gen(R, 1, 3, ["a", "b", ";", "x=1", "if", "!"], ["a", "b", "w", "|", "!", "if", "then", "fi", ";"], "alias2")
         cases += gen(R, 2, 3, ["a", "b", "c", "w"], ["a", "c", "w", ";"], "alias3", tables=TABLES3)
         cases += gen(R, 1, 4, ["a", "b", "w"], ["a", "b", "w", "$(", ")"], "alias4")
+        cases += gen(R, 3, 9, ["a", "b", "w", "for", "case", "in"], ["a", "b", "w"], "alias5", tables=TABLES5, sources=SOURCES5)
     else:
         cases = gen(R, 2, 3, ["a", "b", "w"], ["a", "b", "w", "'a'", "x=1", ";"], "alias1")
         cases += gen(R, 2, 3, ["a", "b", ";", "x=1", "if", "!"], ["a", "b", "w", "|", "!", "if", "then", "fi", ";"], "alias2")
         cases += gen(R, 2, 4, ["a", "b", "c", "w"], ["a", "c", "w", ";"], "alias3", tables=TABLES3)
         cases += gen(R, 1, 5, ["a", "b", "w"], ["a", "b", "w", "$(", ")"], "alias4")
+        cases += gen(R, 3, 9, ["a", "b", "w", "for", "case", "in"], ["a", "b", "w"], "alias5", tables=TABLES5, sources=SOURCES5)
+    # probes of the known finding F-C17-third-word (the model says: not in command position, not replaced)
+    for src in (["for", "x", "foo"], ["case", "x", "foo"]):
+        cases.append(dict(vals={"foo": dict(val=["in", "a", ";", "do", "w", ";", "done"] if src[0] == "for" else ["in", "esac"], blank=False)},
+                          src=src, out=src, names=["foo"]))
     recs = check(R, cases, "al")
     R.evaluations = len(recs) * 2
     R.traces = len(recs)
